@@ -190,8 +190,9 @@ class C01(Prop):
                         exp.append(ca[1])
                 else:
                     exp.append(ca)
-            if r.random() < 0.2:
-                # the same script through the file entry point
+            if r.random() < 0.2 and not any("\r" in l for l in lines):
+                # the same script through the file entry point (a CR in a file is a line end for Python's
+                # text-mode read, so such scripts go through the string entry point only)
                 cases.append({"kind": "comp", "files": {"plain.txt": "\n".join(lines)}, "main": "plain.txt", "opts": {"include_comments": comments}, "expect": exp})
             else:
                 cases.append(comp("\n".join(lines), {"include_comments": comments}, expect=exp))
@@ -382,9 +383,31 @@ class C03(Prop):
                     cases.append({"kind": "tab", "text": "\n".join(bad[0]), "expect_tab_error": bad[1]})
                 else:
                     cases.append({"kind": "tab", "text": "\n".join(lines)})
-            else:
+            elif x < 0.95:
                 text = gen.mutate_text(r, "\n".join(gen.render(nodes, unit, r, blank=0.1)))
-                cases.append({"kind": "tab", "text": text})
+                if r.random() < 0.5:
+                    cases.append({"kind": "tab", "text": text})
+                else:
+                    # through Compiler.compile, which does its own line splitting: characters that look like
+                    # line ends to str.splitlines() placed in leading white space and in blank lines
+                    ls = text.split("\n")
+                    for _ in range(r.randint(1, 3)):
+                        j = r.randrange(len(ls))
+                        ch = r.choice(["\x0b", "\x0c", "\x1c", "\x1d", "\x1e", "\x85", "\u2028", "\u2029", "\r"])
+                        k = len(ls[j]) - len(ls[j].lstrip())
+                        pos = r.randint(0, k)
+                        ls[j] = ls[j][:pos] + ch + ls[j][pos:]
+                    cases.append(comp("\n".join(ls)))
+            else:
+                # the same parser runs on imported files: leading blank / whitespace-only lines, an indented
+                # first code line, every indent unit (the importing file uses another unit)
+                lines = gen.render(nodes, unit, r, blank=0.15)
+                lead = r.choice([[], [""], ["", "  "], ["\t", ""], [" "]])
+                if r.random() < 0.3 and not any('"""' in l for l in lines):
+                    lines = [unit + lines[0]] + lines[1:]
+                imp = r.choice(["START", "STARTCODE", "STARTENV"])
+                main = r.choice(["%s sub", "STRING m\n%s sub\nSTRING n", "REPEAT 2\n\t%s sub", "IF TRUE\n  %s sub\nELSE\n  STRING e"]) % imp
+                cases.append({"kind": "comp", "files": {"main.txt": main, "sub.txt": "\n".join(lead + lines)}, "main": "main.txt", "opts": {}})
         return cases
 
     def break_indent(self, r, lines, unit):
@@ -700,6 +723,11 @@ class C04(Prop):
         for e in ["1+", "(1", "1)", "", " ", "1 1", "TRUE FALSE", "!TRUE", "!(TRUE)", "!!(FALSE)", "((((1))))", "(" * 101 + "1" + ")" * 101,
                   "5/0", "5//0", "5%0", "0^-1", "2^-1", "5/(3-3)", "1/0+\"a\"", "\"a\"+1/0", "\"(\"+\")\"", "\",\"+1", "1,2", "1,2,3", "\"a\",\"b,c\",(1,2)"]:
             out.append({"kind": "tok", "vars": {}, "expr": e})
+        # integer literals are exact at any size (no round trip through a double)
+        for e, v in [("9007199254740993 - 9007199254740992", 1), ("10000000000000000000001 % 10", 1), ("9007199254740993 == 9007199254740992", False),
+                     ("18446744073709551617 // 3", 18446744073709551617 // 3), ("9007199254740993", 9007199254740993), ("(9007199254740993)+0", 9007199254740993),
+                     ("123456789012345678901234567890 - 123456789012345678901234567889", 1), ("9007199254740993 * 1", 9007199254740993)]:
+            out.append({"kind": "tok", "vars": {}, "expr": e, "ref": common.val_rec(v)})
         return out
 
     def mk(self, t, env, r):
@@ -756,9 +784,47 @@ class RefProp(Prop):
             g = refsem.RefGen(r, focus=self.focus if r.random() < 0.75 else "mix", max_depth=r.choice([2, 3, 4]))
             prog = g.program()
             ref = refsem.run_ref(prog)
-            text = "\n".join(refsem.to_lines(prog, r.choice(["    ", "  ", "\t"]), 0, r))
+            unit = r.choice(["    ", "  ", "\t"])
+            lines = refsem.to_lines(prog, unit, 0, r)
+            text = "\n".join(lines)
             cases.append(comp(text, {}, ref=ref))
+            if r.random() < 0.12:
+                w = weave(lines, unit, r)
+                if w is not None:
+                    cases.append(w)
         return cases
+
+
+def weave(lines, unit, r):
+    """the same program cut across files (compared with the model, no reference): a run of whole sibling
+    statements at some nesting level moves into an imported file, or an import is interposed between the
+    arms of a chain; control transfers, definitions and chain flags then cross the file boundary"""
+    def indent(l):
+        k = 0
+        while l.startswith(unit, k * len(unit)):
+            k += 1
+        return k
+    if not lines:
+        return None
+    imp = r.choice(["START", "START", "STARTENV", "STARTCODE"])
+    arms = [j for j, l in enumerate(lines) if l.strip().split(" ")[0].upper() in ("ELIF", "ELSE")]
+    if arms and r.random() < 0.4:
+        j = r.choice(arms)
+        p = unit * indent(lines[j])
+        helper = r.choice(["IF TRUE\n    PASS", "IF FALSE\n    PASS", "IF FALSE\n    PASS\nELSE\n    VAR hz 1", "STRING h", "IF TRUE\n    STRING ht\nELSE\n    STRING he"])
+        main = lines[:j] + [p + imp + " helper"] + lines[j:]
+        return {"kind": "comp", "files": {"main.txt": "\n".join(main), "helper.txt": helper}, "main": "main.txt", "opts": {}}
+    s0 = r.randrange(len(lines))
+    lvl = indent(lines[s0])
+    e = s0 + 1
+    want = r.randint(1, 4)
+    while e < len(lines) and (indent(lines[e]) > lvl or (indent(lines[e]) == lvl and want > 1)):
+        if indent(lines[e]) == lvl:
+            want -= 1
+        e += 1
+    sub = [l[len(unit) * lvl:] for l in lines[s0:e]]
+    main = lines[:s0] + [unit * lvl + imp + " sub"] + lines[e:]
+    return {"kind": "comp", "files": {"main.txt": "\n".join(main), "sub.txt": "\n".join(sub)}, "main": "main.txt", "opts": {}}
 
     def oracle(self, c, i):
         ref = c.get("ref")
@@ -850,6 +916,11 @@ class C07(RefProp):
     def corpus(self, tier):
         out = []
         pool = [("s", "a,b"), ("s", "(x)"), 7, ("+", 1, 2), ("s", "p,(q"), ("*", 2, 3), ("s", ""), 0, ("-", 9, 4)]
+        # argument text is kept exactly: runs of blanks, tabs and other white space inside string literals
+        for txt in ["a  b", "id,   (name)", "x\ty", " lead", "trail  ", "a\xa0\xa0b", "two   ,   three"]:
+            prog = [("func", "say", ["m"], [("emitx", ("+", ("s", "<"), ("+", ("v", "m"), ("s", ">"))))]), ("run", "say", [("s", txt)]),
+                    ("func", "two", ["m", "n"], [("emitx", ("+", ("v", "m"), ("v", "n")))]), ("run", "two", [("s", txt), ("s", txt)])]
+            out.append(comp("\n".join(refsem.to_lines(prog)), {}, ref=refsem.run_ref(prog)))
         for k in range(0, 9):
             params = ["p%d" % j for j in range(k)]
             body = [("emitx", ("+", ("s", p + "="), ("v", p))) for p in params] + [("emit", "end")]
@@ -875,6 +946,30 @@ class C08(RefProp):
     focus = "scope"
     rule = "structured programs weighted towards reads, assignments and first definitions at every nesting level with EXIST/NOTEXIST probes and early exits; distinct = distinct program text"
     explanation = "model-vs-implementation plus the frame-stack reference semantics as oracle (output, final top-level variables)"
+
+    def corpus(self, tier):
+        # an assignment to a visible outer variable reaches the enclosing code also when the only thing
+        # the block does is import the file that assigns it (every block kind x import kind x 1-2 levels)
+        out = []
+        blocks = [["IF TRUE"], ["REPEAT 2"], ["WHILE w,w<1"], ["IF FALSE", "@PASS", "ELSE"], ["IF TRUE", "@IF TRUE"], ["REPEAT 1", "@WHILE k,k<1"]]
+        for b in blocks:
+            for imp in ("START", "STARTENV", "STARTCODE"):
+                for sub in ("VAR x 5", "VAR x x+4\nVAR fresh 1", "IF TRUE\n    VAR x 7"):
+                    head, depth = [], 0
+                    for l in b:
+                        if l.startswith("@"):
+                            depth_here = depth if l[1:] == "PASS" else depth
+                            head.append("    " * depth + l[1:])
+                            if l[1:] != "PASS":
+                                depth += 1
+                        else:
+                            head.append("    " * max(depth - 1, 0) + l if l == "ELSE" else "    " * depth + l)
+                            depth = (max(depth - 1, 0) if l == "ELSE" else depth) + 1
+                    main = ["VAR x 1"] + head + ["    " * depth + imp + " sub"] + ["$STRING x", "NOTEXIST fresh"]
+                    out.append({"kind": "comp", "files": {"main.txt": "\n".join(main), "sub.txt": sub}, "main": "main.txt", "opts": {}})
+                    fn = ["VAR x 1", "FUNC f", "    " + imp + " sub", "RUN f", "$STRING x"]
+                    out.append({"kind": "comp", "files": {"main.txt": "\n".join(fn), "sub.txt": sub}, "main": "main.txt", "opts": {}})
+        return out
 
 
 class C18(RefProp):
@@ -1031,6 +1126,15 @@ class C09(Prop):
         for o in [dict(stack_limit=1), dict(stack_limit=0), dict(stack_limit=-3), dict(flipper_commands=False), dict(include_comments=True, supress_command_not_exist=True)]:
             for t in ["IF TRUE\n    IF TRUE\n        STRING a", "FUNC f\n    RUN f\nRUN f", "ALTCHAR 1\nREM x\nFOO", "REPEAT 2\n    WHILE i,i<2\n        PASS"]:
                 out.append(comp(t, o))
+        # branches of the implementation that the random streams reach rarely (found by measuring line
+        # coverage of /repo under the quick streams): float overflow, 0 to a negative power, grouped RETURN,
+        # nested lines under IGNORE, imports climbing above the root, huge repetition counts, `$$` prefixes
+        for t in ["$STRING 2.5^100000", "VAR q 10.5^400\n$STRING q", "$STRING 0^(0-1)", "VAR q 0.0^(0-1)", "RETURN\n    1\n    2", "FUNC f\n    RETURN\n        1\n        2\nRUN f",
+                  "IGNORE\n    a\n        b", "IGNORE\n    a\n    b", "REPEAT 2.0\n    STRING a", "REPEAT 4/2\n    STRING a", "VAR abc 309979\n$REM ((abc)^2)*\"y}[B\"",
+                  "$$DELAY 5", "$$STRING 1+1", "$$$ENTER 2", "$$FOO 1+1", "VAR x 1\nVAR x 2\n$STRING x", "WHITESPACE 99", "WHITESPACE 100", "$ENTER 99"]:
+            out.append(comp(t))
+        for dots in (3, 12, 40):
+            out.append(F({("m.txt",): "START " + "." * dots + "x\nSTRING after"}, ("m.txt",)))
         return out
 
     def generate(self, rng, n, tier):
